@@ -619,3 +619,48 @@ Theorem inlines_S_T_hold_on_corpus :
   /\ InlinesTotal3Test.run_all io_default = [].
 Proof. exact InlinesTotal3Test.corpus_all_ok. Qed.
 Print Assumptions inlines_S_T_hold_on_corpus.
+
+(* ==================================================================================================================
+   C01, inline phase, fourth wave (Proofs/InlinesTotal4*.v): invariant (T), totality with the autolink extension ON.
+   ---- 1j. (T) at the colon ----
+   CORRECTION of 1i: inlines_T_statement (TH in EVERY reachable state) is FALSE - url_match does not look at the byte at
+   its position, so in the state behind the autolink of `ftp://a.http //b.c` (next byte SPACE, then slash slash) it
+   answers with rewind 4 while the last sibling is the Link (inlines_T_statement_refuted; the premise of
+   inlines_total_from_T is therefore never met).  What the dispatcher needs is (T) in states whose next byte is the
+   colon (InlinesTotal4Walk.THc; the walk of 1h is repeated with that hypothesis: InlinesTotal4Walk.v).
+   The state invariant (InlinesTotal4Inv.J): when the bytes at pos are [ASCII letters] colon slash slash, the trailing
+   Text siblings spell the letters immediately in front of pos.  PROVED kept by every arm of parse_inline:
+     * the last byte consumed is no ASCII letter (InlinesTotal4Last.v, per arm): line endings and the spaces behind them,
+       code spans and backtick runs (a closer is a backtick run), backslash escapes (punctuation / line end), entities
+       (Entity.unescape matches end in `;`), the pointy-brace forms whose length is a scanner match - autolink_uri,
+       autolink_email, html_tag, html_comment: every match ENDS in `>` (InlinesTotal4Re.re_last: an executable test on
+       the regular expressions re2c was given, lifted by matches_last) -, delimiter runs, smart punctuation, dollar math
+       (closers are dollar runs), wikilinks (`]]`), all paths of handle_close_bracket (`]`, `)`), `[`, `![`, `!`, `:`;
+     * the two autolink arms may end on a letter without a Text: behind the link the bytes are NOT [letters] colon slash
+       (InlinesTotal4Auto.v: ext_loop stops at white space / the end; autolink_delim cuts at `<` and takes away from the
+       end only bytes that are no `/` - punctuation, closing brackets, `&letters;` - the first of them no letter);
+     * the default text arm and the Text `w`: the appended Text holds the consumed bytes (left-trimmed after a hard
+       break), its end column is >= its length (column_offset >= -pos); when all of them are letters, J before.
+   NOT TREATED: the three raw-HTML forms of handle_pointy_brace that take `scanner match + k` bytes - CDATA `<![`,
+   declaration `<!X`, processing instruction `<?` - where valid UTF-8 of the content is needed (1e).  They are excluded
+   by `no_decl_pi inp`: behind every `<` of the content there is no `?`, and a `!` only in front of `--` (comments are
+   treated).  CONSEQUENCE (inlines_total_no_decl_pi): every option set (autolink and relaxed_autolinks included),
+   oracle, reference map, memo switch - under the four premises of 1g and no_decl_pi the inline phase of a block is
+   TOTAL: all 76 Panic sites unreachable; no premise on NUL bytes or UTF-8. *)
+From V Require Proofs.InlinesTotal4Walk Proofs.InlinesTotal4Re Proofs.InlinesTotal4Last Proofs.InlinesTotal4Auto
+     Proofs.InlinesTotal4Inv Proofs.InlinesTotal4Main.
+
+Theorem inlines_T_statement_refuted : ~ inlines_T_statement.
+Proof. exact InlinesTotal4Main.T_statement_refuted. Qed.
+Print Assumptions inlines_T_statement_refuted.
+
+Definition no_decl_pi : bytes -> bool := InlinesTotal4Main.no_decl_pi.
+
+Theorem inlines_total_no_decl_pi :
+  forall memo o u inp lo sl refmap maxref rs0,
+    Strings.rtrim_slice inp = inp -> first_line_not_blank inp = true ->
+    line_endings inp < List.length lo -> (rs0 <= maxref)%N ->
+    no_decl_pi inp = true ->
+    exists ch rs, parse_inlines memo o u inp lo sl refmap maxref rs0 = Ok (ch, rs).
+Proof. exact InlinesTotal4Main.inlines_total_no_decl_pi. Qed.
+Print Assumptions inlines_total_no_decl_pi.
